@@ -258,7 +258,7 @@ def rule_capture_method_callers(ctx, rid):
     gsf = m.one_func("get_stack_frame", "CAPTURE")
     for f in run:
         for c in f.own_calls():
-            if not (isinstance(c.func, ast.Attribute) and c.func.attr in (roles.frame_gather(m).name, roles.call_ctor(m).name)):
+            if not (isinstance(c.func, ast.Attribute) and c.func.attr in ((roles.gather_names(m) - {"gather"}) | {roles.call_ctor(m).name})):
                 continue
             n += 1
             a0 = c.args[0] if c.args else None
